@@ -53,6 +53,9 @@ func c06missing(i, variant int) string {
 		}
 		return "tOne"
 	}
+	if variant == 6 {
+		return r.missing + strings.Repeat("x", 70000) // longer than the 64 KiB many line readers stop at
+	}
 	return r.missing
 }
 
@@ -216,8 +219,11 @@ func init() {
 					w.ShapeInvarianceOK(c, c.ID, []File{{"c.yaml", c06build(set, 0).YAML()}}, set == 0)
 				})
 			}
-			for _, variant := range []int{0, 1, 2, 4, 5} {
+			for _, variant := range []int{0, 1, 2, 4, 5, 6} {
 				for set := uint(0); set < 1<<uint(n); set++ {
+					if variant == 6 && bits.OnesCount(set) != 1 && set != 0x3 && set != 0x181 {
+						continue // very long names: one position at a time and two pairs
+					}
 					if w.Env.Quick() {
 						// quick: every subset of size <= 3 and every complement of one (thorough: all 2^17)
 						pc := bits.OnesCount(set)
